@@ -173,7 +173,12 @@ def is_strict(word):
 
 
 def strict_pinwords(length):
-    return [w for w in pinwords(length) if is_strict(w)]
+    """A numeral followed by an alternating direction word (same set as filtering
+    `pinwords(length)` with `is_strict`; generated directly so that long words are
+    affordable)."""
+    if length == 0:
+        return []
+    return [q + m for q in NUMERALS for m in m_words(length - 1)]
 
 
 def in_m(word):
@@ -184,7 +189,17 @@ def in_m(word):
 
 
 def m_words(length):
-    return ["".join(t) for t in itertools.product(DIRECTIONS, repeat=length) if in_m("".join(t))]
+    """All words of M of the length: choose the axis of the first letter, then one of
+    the two letters of the due axis at every position (same set as filtering all
+    4^n direction words with `in_m`)."""
+    if length == 0:
+        return [""]
+    out = []
+    for first in (VERTICAL, HORIZONTAL):
+        second = HORIZONTAL if first == VERTICAL else VERTICAL
+        axes = [first if i % 2 == 0 else second for i in range(length)]
+        out.extend("".join(t) for t in itertools.product(*axes))
+    return out
 
 
 def all_direction_words(length):
